@@ -170,7 +170,7 @@ Proof.
   induction segs as [|s segs IH]; intros m H.
   - cbn [map add_all]. rewrite app_nil_r. now destruct m.
   - inversion H as [|? ? Hs Hr]; subst. cbn [map add_all node_str_name node_name].
-    unfold child_admission. rewrite (find_child_check_known _ _ _ Hs). cbn [bind].
+    unfold child_acceptance. rewrite (find_child_check_known _ _ _ Hs). cbn [bind].
     unfold child_card_ok. cbn [is_strict negb bind].
     rewrite (IH _ Hr). cbn [m_name m_st m_children]. now rewrite <- app_assoc.
 Qed.
@@ -235,7 +235,7 @@ Theorem message_flat_roundtrip (lines : list str) (s0 : seg) (segs : list seg) (
    | Err (HL7 EInvalidName) => new_message TOLERANT t e None
    | r => r end) = Ok m0 ->
   (* every line is a non-empty, CR-free text without surrounding white space that parses to a
-     segment with an admissible name, which encodes back to the line *)
+     segment with an acceptable name, which encodes back to the line *)
   Forall (fun l => l <> [] /\ bmem CR l = false /\ strip l = l) lines ->
   strip (msh_line e hf) = msh_line e hf ->
   Forall2 (fun l s => parse_segment t TOLERANT e leaf l None = Ok s /\ enc_segment t e s false = Ok l /\
@@ -478,9 +478,9 @@ Theorem grouped_segments_are_flat text f :
   Forall2 (fun l s => parse_segment t TOLERANT e leaf l None = Ok s) (pieces text) (gflatten f).
 Proof.
   intros H. pose proof (pieces_stripped text) as Hstrip. unfold parse_segments_grouped_trees in H.
-  pose proof (find_groups_sound t str seg (take 3) mk s_name (group_admission t TOLERANT) root Htab _ _ H) as Hs.
-  pose proof (find_groups_unplaced t str seg (take 3) mk s_name (group_admission t TOLERANT) root Htab Hdist _ _ H) as Hu.
-  destruct (find_groups_order t str seg (take 3) mk s_name (group_admission t TOLERANT) root _ _ H) as [_ Ho].
+  pose proof (find_groups_sound t str seg (take 3) mk s_name (group_acceptance t TOLERANT) root Htab _ _ H) as Hs.
+  pose proof (find_groups_unplaced t str seg (take 3) mk s_name (group_acceptance t TOLERANT) root Htab Hdist _ _ H) as Hu.
+  destruct (find_groups_order t str seg (take 3) mk s_name (group_acceptance t TOLERANT) root _ _ H) as [_ Ho].
   assert (Hown : Forall (own_ref_ok t) (gflatten f)).
   { unfold gflatten. clear -Hs Hu Hrows Hkeys. induction f as [|x f IH]; [constructor|].
     inversion Hs; subst. inversion Hu; subst. cbn [flat_map]. apply Forall_app. split; [|now apply IH].
@@ -502,19 +502,19 @@ Variable X A : Type.
 Variable raw : X -> str.
 Variable mkseg : X -> option sref -> result A.
 Variable nm : A -> str.
-Variable admission : str * sref * structure -> list str -> str -> result unit.
+Variable acceptance : str * sref * structure -> list str -> str -> result unit.
 Variable root : sref.
 
 Notation gstate := (gstate A).
-Notation add_child := (add_child A nm admission).
-Notation open_group := (open_group t A nm admission).
-Notation open_groups := (open_groups t A nm admission).
-Notation reopen_group := (reopen_group t A nm admission).
-Notation place := (place X A mkseg nm admission).
-Notation after_found := (after_found t X A raw mkseg nm admission root).
-Notation attempts := (attempts t X A raw mkseg nm admission root).
-Notation step := (step t X A raw mkseg nm admission root).
-Notation run := (run t X A raw mkseg nm admission root).
+Notation add_child := (add_child A nm acceptance).
+Notation open_group := (open_group t A nm acceptance).
+Notation open_groups := (open_groups t A nm acceptance).
+Notation reopen_group := (reopen_group t A nm acceptance).
+Notation place := (place X A mkseg nm acceptance).
+Notation after_found := (after_found t X A raw mkseg nm acceptance root).
+Notation attempts := (attempts t X A raw mkseg nm acceptance root).
+Notation step := (step t X A raw mkseg nm acceptance root).
+Notation run := (run t X A raw mkseg nm acceptance root).
 
 Variable a0 : A.
 Variable r0 : option sref.
@@ -610,10 +610,10 @@ Proof.
 Qed.
 
 (* the first item: found directly under the message reference, or not found at all *)
-Lemma first_step_leaf t (X A : Type) raw (mkseg : X -> option sref -> result A) nm admission root x0 s1 :
+Lemma first_step_leaf t (X A : Type) raw (mkseg : X -> option sref -> result A) nm acceptance root x0 s1 :
   match search t search_fuel (raw x0) root with
   | Ok None => True | Ok (Some (_, [])) => True | _ => False end ->
-  step t X A raw mkseg nm admission root (init_state A root) x0 = Ok s1 ->
+  step t X A raw mkseg nm acceptance root (init_state A root) x0 = Ok s1 ->
   exists a r, g_forest s1 = [GS a r].
 Proof.
   intros Hs H. unfold Groups.step, init_state in H. cbn [g_stack length Groups.attempts] in H.
@@ -722,7 +722,7 @@ Proof.
       { unfold msh_line. destruct hf; reflexivity. }
       rewrite E3. exact Hsearch. }
     destruct (first_step_leaf t str seg (take 3) _ _ _ _ _ s1 Hs' Hstep) as [a [r Hf1]].
-    destruct (run_hd t str seg (take 3) (seg_of_piece t TOLERANT e leaf) s_name (group_admission t TOLERANT) (st_reference st) a r lines s1 sfin) as [rest Hrest].
+    destruct (run_hd t str seg (take 3) (seg_of_piece t TOLERANT e leaf) s_name (group_acceptance t TOLERANT) (st_reference st) a r lines s1 sfin) as [rest Hrest].
     - exists []. exact Hf1.
     - exact Hrun.
     - rewrite Hrest in Hsegs. cbn [gflatten flat_map gflatten_tree app] in Hsegs. injection Hsegs as -> _.
